@@ -512,7 +512,7 @@ pub struct SweepOut {
 }
 
 impl SweepOut {
-	fn merge(mut self, o: SweepOut) -> SweepOut {
+	pub fn merge(mut self, o: SweepOut) -> SweepOut {
 		self.stats = self.stats.merge(o.stats);
 		self.reordered_builds += o.reordered_builds;
 		self.texts_not_in_key_order += o.texts_not_in_key_order;
@@ -520,7 +520,7 @@ impl SweepOut {
 		self.cases += o.cases;
 		self
 	}
-	fn add(&mut self, s: Seen) {
+	pub fn add(&mut self, s: Seen) {
 		self.reordered_builds += s.reordered_builds;
 		self.texts_not_in_key_order += s.text_not_in_key_order as u64;
 		self.max_text_len = self.max_text_len.max(s.text_len);
